@@ -207,7 +207,7 @@ def obligations_for(prop, gen, unitcfg, mods):
                 obs.append('termination:%s::%s' % (f.module, f.path))
     return obs
 
-def write_replay(prop, f, res, idx, sr=None):
+def write_replay(prop, f, res, idx, sr=None, native=None):
     d = os.path.join(REPLAYS, prop)
     os.makedirs(d, exist_ok=True)
     ts = time.strftime('%Y%m%dT%H%M%S')
@@ -225,6 +225,14 @@ def write_replay(prop, f, res, idx, sr=None):
             open(os.path.join(pd, 'Cargo.toml'), 'w').write('[package]\nname = "elf-verif-replay"\nversion = "0.1.0"\nedition = "2021"\n\n[dependencies]\nelf = { path = "%s" }\n\n[workspace]\n' % REPO)
             extra['replay_program'] = pd
             extra['how_to_replay'] = 'cd %s && CARGO_TARGET_DIR=$(mktemp -d) cargo run --offline -q --bin replay   (exits 1 and prints REPLAY FAILS while the defect is present)' % pd
+    if native and not (sr and sr.get('status') == 'replayed-fails'):
+        # the property's native families ran on the same tree: whether they saw a failing input is part of the record --
+        # a rejected proof obligation with NO failing input from any family may be a proof that no longer goes through for an
+        # equivalent formulation (a possible false alarm) rather than a defect
+        extra['native_oracles_of_this_property'] = {h: r.get('status') for h, r in native.items()}
+        extra['native_oracles_note'] = ('the native families of this property found a failing input on this tree (see the bounded:native:* violation of the same run)'
+                                        if any(r.get('status') == 'replayed-fails' for r in native.values()) else
+                                        'native oracles of this property found no failing input: if the edited code is an equivalent formulation, this obligation may have failed only because its proof no longer goes through')
     json.dump({'property': prop, 'failed_obligation': f['obligation'], 'kind': f['kind'], 'function': f['fn'], 'module': f['module'],
                'source': f['src'], 'clause': f['clause'], 'verifier_message': f['message'], 'verifier_output': f['rendered'],
                'checker_cmd': res.get('cmd', ''), 'failing_input': (sr or {}).get('inputs') if (sr and sr.get('status') == 'replayed-fails') else None,
@@ -614,7 +622,7 @@ def main():
         if f.get('_search'): searched[f['obligation']] = f['_search']     # thorough tier: the oracle run already holds the replayed input
     for i, f in enumerate(viol):
         sr = searched.get(f['obligation'])
-        p = write_replay(prop, f, {'cmd': f.get('cmd', '')}, i, sr)
+        p = write_replay(prop, f, {'cmd': f.get('cmd', '')}, i, sr, native=(extra.get('report', {}) or {}).get('native_oracles'))
         replay_paths.append(p)
         tail = 'no-failing-input-found' if not (sr and sr.get('status') == 'replayed-fails') else 'failing-input-replayed-on-the-real-crate'
         print('VIOLATION property=%s replay=%s obligation=%s function=%s %s %s' % (
